@@ -212,6 +212,7 @@ type pipe struct {
 	sent         int64
 	delivered    int64
 	read         int64
+	eofData      int // Reads of this direction that returned data together with io.EOF (Net.EOFWithData)
 }
 
 type Conn struct {
@@ -260,6 +261,7 @@ func (c *Conn) Read(b []byte) (int, error) {
 			c.in.read += int64(k)
 			n.cond.Broadcast()
 			if n.EOFWithData && len(c.in.ready) == 0 && c.in.finDelivered && !c.in.reset {
+				c.in.eofData++
 				return k, io.EOF
 			}
 			return k, nil
@@ -449,6 +451,14 @@ func (c *Conn) Counters() (sent, delivered, read int64) {
 	c.n.mu.Lock()
 	defer c.n.mu.Unlock()
 	return c.out.sent, c.out.delivered, c.out.read
+}
+
+// EOFWithDataReads returns the number of Reads of this end that returned data together with io.EOF
+// (only with Net.EOFWithData; at most one per connection end).
+func (c *Conn) EOFWithDataReads() int {
+	c.n.mu.Lock()
+	defer c.n.mu.Unlock()
+	return c.in.eofData
 }
 
 // IsClosed reports whether this end called Close.
